@@ -2759,6 +2759,10 @@ class Trimesh(Geometry3D):
             # silently refuse negated normals for the un-flipped faces
             # fliplr makes array non-contiguous so cache checks slow
             self.faces = np.ascontiguousarray(np.fliplr(self.faces))
+            # drop the un-negated values: the setters below may refuse the
+            # candidates and would otherwise leave the old normals behind
+            self._cache.cache.pop("face_normals", None)
+            self._cache.cache.pop("vertex_normals", None)
             if face_normals is not None:
                 self.face_normals = face_normals * -1.0
             if vertex_normals is not None:
